@@ -98,9 +98,11 @@ def handleFit (toks : List String) : Option String := do
 def handle (toks : List String) : String :=
   let r := match toks with
     | "fit" :: rest => handleFit rest
-    -- same request; the harness uses this name for un-whitened tiny-scale data so that the float
-    -- tokens are compared with a smaller absolute tolerance (conf `compare.fitt`)
+    -- same request; the harness uses these names for un-whitened tiny-scale data / huge-scale data so
+    -- that the float tokens are compared with a smaller / larger absolute tolerance (conf
+    -- `compare.fitt`, `compare.fith`)
     | "fitt" :: rest => handleFit rest
+    | "fith" :: rest => handleFit rest
     | _ => none
   r.getD "bad-op"
 
